@@ -68,6 +68,7 @@ func rcLoad(c *Ctx) (*Prog, *packages.Package, *packages.Package) {
 
 func seqOf(p *Prog, pk *packages.Package, name string) (emSeq, *ast.FuncDecl) {
 	fd := FuncDecl(pk, name)
+	registerPredicates(pk)
 	return emitSequence(pk.TypesInfo, fd), fd
 }
 
